@@ -57,6 +57,28 @@ NextThm ==
   \/ \E s \in K : RemoveStar(s, "simplex")
 SpecThm == Init /\ [][NextThm]_<<n, K, act>>
 
+(* Contractions on 5 handles, cases style (a blocker that is itself a candidate for the new blockers needs 5         *)
+(* vertices).  Load builds a complex from its skeleton and blockers (add_vertex, add_edge_without_blockers,           *)
+(* add_blocker): the graphs are K5 minus one of four representative edge sets (every graph with at most two missing   *)
+(* edges is isomorphic to one of them), the blockers every valid set of at most MaxLoadBlockers simplices; then every  *)
+(* contraction of every edge in both orientations.  The contracted complexes are not expanded further.                 *)
+CONSTANT MaxLoadBlockers
+AllPairsV == {e \in SUBSET V : Cardinality(e) = 2}
+LoadMissing == {{}, {{0, 1}}, {{0, 1}, {0, 2}}, {{0, 1}, {2, 3}}}
+LoadBlockerSets(EE) ==
+  LET cand == {t \in Simplices(V) : Dim(t) >= 2 /\ IsClique(t, V, EE)}
+  IN  {BB \in SUBSET cand : Cardinality(BB) <= MaxLoadBlockers /\ Blockers(FromSB(V, EE, BB)) = BB}
+Load(EE, BB) ==
+  /\ n = 0 /\ K = {}
+  /\ n' = NV
+  /\ K' = FromSB(V, EE, BB)
+  /\ act' = [op |-> "load", nv |-> NV, e_set |-> SS(EE), b_set |-> SS(BB)]
+NextContract ==
+  \/ \E R \in LoadMissing : \E BB \in LoadBlockerSets(AllPairsV \ R) : Load(AllPairsV \ R, BB)
+  \/ act.op = "load" /\ \E a, b \in Verts(K) : ContractEdge(a, b, IF a < b THEN "pair" ELSE "edge")
+SpecContract == Init /\ [][NextContract]_<<n, K, act>>
+ViewContract == <<n, K, act.op = "load">>
+
 View == <<n, K>>
 EmitState == PrintT(<<"STATE", ToJson([id |-> Id(n, K), obs |-> Obs(K)])>>)
 EmitEdge  == PrintT(<<"EDGE", ToJson([from |-> Id(n, K), act |-> act', to |-> Id(n', K')])>>)
